@@ -127,7 +127,7 @@ def harness(ck, prop, job, report=True):
             if v['property'] == prop:
                 ck.violation('%s (%s): %s' % (v['kind'], v['schedule'], v['detail']),
                              {'kind': 'schedule', 'nstreams': v['nstreams'], 'qcap': v['qcap'],
-                              'steps': [[s['a'], s['e'], s['s']] for s in v['steps']], 'detail': v['detail']})
+                              'steps': [[s['a'], s['e'], s['s']] for s in (v['steps'] or [])], 'detail': v['detail']})
             else:
                 ck.notes.append("also saw a %s violation (%s: %s) - reported by that property's own check"
                                 % (v['property'], v['kind'], v['detail'][:100]))
@@ -157,6 +157,16 @@ def run(prop, tier, seed, replay=None):
     listed = [s for s in SLUGS if (prop, s) in known]
     if replay:
         rep = json.load(open(replay))
+        if rep.get('kind') == 'history':
+            from checks import bytepipe
+            return bytepipe.run(prop, tier, seed, replay=replay)
+        if rep['steps'] == [] or str(rep.get('detail', '')).startswith('flush-retry'):
+            job = {'nstreams': 1, 'qcap': rep.get('qcap', 2), 'known': [], 'schedules': [], 'staged': True,
+                   'random': {'n': 0, 'seed': 1, 'steps': 0, 'streams': 1}}
+            ck.cov['evaluations'] = 1
+            ck.cov['distinct_nontrivial'] = 1
+            harness(ck, prop, job)
+            return ck.finish()
         job = {'nstreams': rep['nstreams'], 'qcap': rep['qcap'], 'known': [],
                'schedules': [{'name': 'replay', 'steps': [{'a': a, 'e': e, 's': s} for a, e, s in rep['steps']]}],
                'random': {'n': 0, 'seed': 1, 'steps': 0, 'streams': 1}}
@@ -186,6 +196,7 @@ def run(prop, tier, seed, replay=None):
         if tier == 'quick' and len(scheds) > 4500:
             scheds = rng.sample(scheds, 1200)
         job = {'nstreams': len(streams), 'qcap': qcap, 'known': listed + SKIP.get(prop, []), 'schedules': scheds,
+               'staged': (prop == 'C09' and not ck.cov.get('staged_fault_scenarios')),
                'random': {'n': 0, 'seed': ck.seed, 'steps': 0, 'streams': 1}}
         ck.log('graph ready: %d cover paths, replaying %d' % (total_paths, len(scheds)))
         r = harness(ck, prop, job)
@@ -197,6 +208,8 @@ def run(prop, tier, seed, replay=None):
         ck.add('replay_steps', r['steps'])
         ck.add('end_state_checks', r['end_checks'])
         ck.add('eos_checks', r['eos_checks'])
+        if r.get('staged'):
+            ck.cov['staged_fault_scenarios'] = r['staged']
         ck.cov['tlc_configs'].append('Session streams=%s qcap=%d msgs=(%d,%d) exhaust<=%d, finding classes pruned: %d states, '
                                      '%d transitions, depth %d; %d of %d cover paths replayed, %d conforming'
                                      % (streams, qcap, ma, mb, mexh, res.distinct, len(edges), res.depth, r['replayed'], total_paths, r['conforming']))
@@ -258,6 +271,10 @@ def run(prop, tier, seed, replay=None):
                                          % (r['replayed'], r['conforming']))
             for s in r['samples']:
                 ck.sample('random history on real code: ' + s)
+    if prop == 'C09' and not ck.violations:
+        # buffer-level histories (multi-slice and mixed shm/heap messages, partial reads, pins, reuse): module BytePipe
+        from checks import bytepipe
+        bytepipe.run('C09', tier, seed, ck=ck, finish=False)
     if prop == 'C10' and not ck.violations:
         # callback mode: Close from another goroutine / from inside OnData, callbacks exactly once (module Callback)
         from checks import callback
